@@ -10,6 +10,7 @@ tools/rs2lean_fn.py — regenerates Lean definitions from the SOURCE TEXT of sel
   fn:misc     /repo/yui-khovanov/src/misc.rs (+ kh/ss.rs, khi/ssi.rs)  -> lean/Yuiv/Gen/MiscFn.lean     (Props/C06Gen.lean)
   fn:snf      /repo/yui-matrix/src/dense/snf.rs                    -> lean/Yuiv/Gen/SnfFn.lean      (Props/C09Gen.lean)
   fn:lll      /repo/yui-matrix/src/dense/lll.rs                    -> lean/Yuiv/Gen/LllFn.lean      (Props/C10Gen.lean)
+  fn:homcalc  /repo/yui-homology/src/utils/homology_calc.rs        -> lean/Yuiv/Gen/HomCalcFn.lean  (Props/C07Gen.lean)
 
 Additions for fn:misc / fn:snf (see the target entries in TARGETS and Yuiv/Model/RustIter.lean, RustDense.lean):
 free functions of a file (`free_fns`), closures as auxiliary definitions (captured variables become parameters),
@@ -79,7 +80,7 @@ Semantics emitted
     on fuel (`Res.err` when it runs out): the constant `loopFuel`, or — target option `fuel_param` — an explicit first
     argument `fuel` of every function that (transitively) contains a loop.
 
-Usage: rs2lean_fn.py [fn:bitseq|fn:ratio|fn:intext|fn:qint|fn:ff|fn:misc|fn:snf|fn:lll]... [--src FILE]... [--out FILE]   (none = all)
+Usage: rs2lean_fn.py [fn:bitseq|fn:ratio|fn:intext|fn:qint|fn:ff|fn:misc|fn:snf|fn:lll|fn:homcalc]... [--src FILE]... [--out FILE]   (none = all)
   `--src` (once per source file of the target, in its order) and `--out` need exactly one target.
 Exit status 0: every selected generated file is up to date or was rewritten; 1: for some target something in a
 REQUIRED function (or in the item structure) is outside the subset — `rs2lean_fn: cannot translate: <what>` is printed
@@ -222,6 +223,19 @@ TARGETS = {
         required=_req("LLLData", ("next", "back", "nrows", "lovasz_ok", "mul_row", "nz_col_in", "add_row_to", "reduce",
                                   "swap")) + _req("LLLCalc", ("iterate", "process")) +
                  _req("LLLHNFCalc", ("reduce", "is_ok", "iterate", "process", "result"))),
+    "homcalc": dict(
+        src="/repo/yui-homology/src/utils/homology_calc.rs", out="HomCalcFn.lean", ns="Yuiv.GenHomCalc", scalar="Z",
+        macros=False, fuel_param=True, nat_usize=True, hom=True, no_derive=True,
+        opaque_fns={"snf_in_place": ("snf", "C07.SnfFn")},
+        imports=["Yuiv.Model.Res", "Yuiv.Model.RustArith", "Yuiv.Model.RustRing", "Yuiv.Model.RustHom"],
+        blurb=["The associated functions of `impl HomologyCalc<R>` (yui-homology/src/utils/homology_calc.rs).  `R := Int`;",
+               "`SpMat<R>` and `Mat<R>` are both the model's dense `C07.Mat` (`into_dense` / `into_sparse` are the identity),",
+               "`SnfResult<R>` is `C07.Snf`, `Trans<R>` is `C07.Trans`, `Vec<R>` a list, `usize` an unbounded `Nat` with checked",
+               "subtraction; the matrix / `SnfResult` / `Trans` primitives are the functions of Yuiv/Model/RustHom.lean (each one",
+               "the corresponding primitive of the hand model); `snf_in_place` is the extra argument `snf : C07.SnfFn` (its",
+               "specification is property C09); panics are `Res.panic`.",
+               "`Yuiv/Props/C07Gen.lean` proves them equal to the hand-written model `Yuiv/Model/C07Calc.lean`."],
+        required=_req("HomologyCalc", ("calculate", "trivial_result", "process_snf", "result", "trans"))),
     "intext": dict(
         src=["/repo/yui/src/misc/int_ext.rs", "/repo/yui/src/abst/euc_ring.rs"], out="IntExtFn.lean",
         ns="Yuiv.GenIntExt", scalar="Z", macros=True, fuel_param=True,
@@ -1495,6 +1509,9 @@ class Translator:
         if t == "E": return "α"
         if t == "LM": return "LMat"
         if t == "VZ": return "(Array Int)"
+        if t == "HM": return "C07.Mat"
+        if t == "HS": return "C07.Snf"
+        if t == "HT": return "C07.Trans"
         mm = re.fullmatch(r"M<(\w+),(\w+)>", t)
         if mm: return f"(C09.Mat α {mm.group(1)} {mm.group(2)})"
         if self.cfg.get("eops") and t in self.mod.structs: return f"({t}S α m n)"
@@ -1522,6 +1539,11 @@ class Translator:
             return "(" + ",".join([self.norm_ty(ma.group(1), fn)] * int(ma.group(2))) + ")"
         if re.fullmatch(r"M<\w+,\w+>", t): return t
         if self.cfg.get("nat_usize") and t == "usize": return "usize"
+        if self.cfg.get("hom"):
+            if t in ("HM", "HS", "HT"): return t
+            mh = re.fullmatch(r"(SpMat|Mat|SnfResult|Trans|Vec)<(\w+)>", t)
+            if mh and self.norm_ty(mh.group(2), fn) == "Z":
+                return {"SpMat": "HM", "Mat": "HM", "SnfResult": "HS", "Trans": "HT", "Vec": "List<Z>"}[mh.group(1)]
         if self.cfg.get("lmat"):
             if t in ("LM", "VZ"): return t
             if re.fullmatch(r"Mat<\w+>", t) and self.norm_ty(t[4:-1], fn) == "Z": return "LM"
@@ -1546,7 +1568,7 @@ class Translator:
             if len(ps) != len(args): raise Unsupported(f"type `{t}`")
             for p_, a_ in zip(ps, args): body = re.sub(r"(?<![\w])" + re.escape(p_) + r"(?![\w])", a_, body)
             return self.norm_ty(body, fn)
-        if m and m.group(1) in self.mod.structs and (self.cfg.get("eops") or self.cfg.get("lmat")):
+        if m and m.group(1) in self.mod.structs and (self.cfg.get("eops") or self.cfg.get("lmat") or self.cfg.get("hom")):
             return m.group(1)
         if m and m.group(1) in self.mod.structs and (self.mod.stparams.get(m.group(1)) or self.mod.stcparams.get(m.group(1))):
             raw = split_top(m.group(2))
@@ -1567,7 +1589,7 @@ class Translator:
         if m: return f"Option<{self.norm_ty(m.group(1), fn)}>"
         if t in BADINT: raise Unsupported(f"type `{t}` (only the 64-bit unsigned integers are in the subset)")
         if t in self.mod.structs and (self.mod.stparams.get(t) or self.mod.stcparams.get(t)) and \
-                not (self.cfg.get("eops") or self.cfg.get("lmat")):
+                not (self.cfg.get("eops") or self.cfg.get("lmat") or self.cfg.get("hom")):
             raise Unsupported(f"generic type `{t}` without arguments")
         if t in g["tvars"]: return t
         saved = self.tvars
@@ -1627,6 +1649,9 @@ class Translator:
             xs, ys = split_top(a[1:-1]), split_top(b[1:-1])
             return len(xs) == len(ys) and all(Translator.compat(x, y) for x, y in zip(xs, ys))
         if a.startswith("Option<") and b.startswith("Option<") and "Option<_>" in (a, b): return True
+        if a.startswith("List<") and b.startswith("List<") and "List<_>" in (a, b): return True
+        if a.startswith("Option<") and b.startswith("Option<") and a != "Option<_>" and b != "Option<_>":
+            return Translator.compat(a[7:-1], b[7:-1])
         return False
 
     def join_int(self, a, b, what, line):
@@ -1704,7 +1729,8 @@ class Translator:
         pure = not code.monadic() and not self.uses_fuel
         if self.uses_fuel: params = [("fuel", "Nat")] + params
         sty_ = self.lean_ty(f.ty) if f.ty in self.types else None
-        params = [(nm, f"{unpar(sty_)} → Res {sty_}") for nm in self.uses_opaque] + params
+        otys = {nm: ty for nm, ty in self.cfg.get("opaque_fns", {}).values()}
+        params = [(nm, otys.get(nm) or f"{unpar(sty_)} → Res {sty_}") for nm in self.uses_opaque] + params
         sig = " ".join(([self.gsig] if self.gsig else []) + [f"({n} : {unpar(t)})" for n, t in params])
         head = f"def {self.lean_fn(f)}" + (" " + sig if sig else "") + " : " + (unpar(lret) if pure else f"Res {lret}") + " :="
         lines = [f"/-- `{f.rust_name}` -/", head] + self.body_lines(code, "  ", not pure)
@@ -3231,6 +3257,9 @@ class Translator:
                 i3, t, ty = self.call_user_terms(c[0], [a, b], line)
                 return i1 + i2 + i3, t, ty
             raise Unsupported(f"`{op}` on {ta}, {tb} (line {line})")
+        if ta == "HM" and tb == "HM" and op == "*":
+            r = self.fresh()
+            return i1 + i2 + [("bind", r, f"HMat.mul {a} {b}")], r, "HM"
         i3, t, ty = self.binop(op, a, ta, b, tb, line)
         return i1 + i2 + i3, t, ty
 
@@ -3457,6 +3486,8 @@ class Translator:
         if nm in ("panic", "unreachable", "unimplemented", "todo"):
             r = self.fresh()
             return [("bind", r, "Res.panic")], r, "!"
+        if nm == "vec" and not e.args and self.cfg.get("hom"):
+            return [], "[]", "List<_>"
         raise Unsupported(f"macro `{nm}!` (line {line})")
 
     def tr_call(self, e, env):
@@ -3470,6 +3501,27 @@ class Translator:
             if len(decl) != len(e.args): raise Unsupported(f"constructor `{name}(..)` with {len(e.args)} arguments (line {line})")
             fields = [(f, a) for (f, _), a in zip(decl, e.args)]
             return self.tr_struct(N("struct", path=[name], fields=fields, line=line), env)
+        if len(segs) == 1 and segs[0] in self.cfg.get("opaque_fns", {}) and segs[0] not in env and len(e.args) == 2:
+            # the SNF routine: an argument of the generated definition (`snf d [p, pinv, q, qinv]`)
+            nm = self.cfg["opaque_fns"][segs[0]][0]
+            i1, a, ta = self.tr(e.args[0], env)
+            i2, fl, tf = self.tr(e.args[1], env)
+            if ta != "HM" or tf != "(bool,bool,bool,bool)":
+                raise Unsupported(f"`{segs[0]}` on arguments of types {ta}, {tf} (line {line})")
+            if nm not in self.uses_opaque: self.uses_opaque.append(nm)
+            r = self.fresh()
+            return i1 + i2 + [("bind", r, f"{nm} {a} {fl}")], r, "HS"
+        if len(segs) == 2 and self.cfg.get("hom") and segs[0] == "Trans" and segs[0] not in self.types:
+            if segs[1] == "id" and len(e.args) == 1:
+                i1, a, ta = self.tr(e.args[0], env)
+                if ta not in INT64: raise Unsupported(f"`Trans::id` on {ta} (line {line})")
+                return i1, f"(HTrans.id {a})", "HT"
+            if segs[1] == "new" and len(e.args) == 2:
+                i1, a, ta = self.tr(e.args[0], env)
+                i2, b, tb = self.tr(e.args[1], env)
+                if ta != "HM" or tb != "HM": raise Unsupported(f"`Trans::new` on {ta}, {tb} (line {line})")
+                r = self.fresh()
+                return i1 + i2 + [("bind", r, f"HTrans.new {a} {b}")], r, "HT"
         if len(segs) == 1 and self.cfg.get("free_fns") and segs[0] not in env:
             c = [f for f in self.mod.fns if getattr(f, "is_free", False) and f.name == segs[0] and
                  (not getattr(self.cur, "is_free", False) or f.ty == self.cur.ty)]
@@ -3619,6 +3671,37 @@ class Translator:
                 if ta not in INT64: raise Unsupported(f"`.row` with an argument of type {ta} (line {line})")
                 r = self.fresh()
                 return i1 + i2 + [("bind", r, f"LMat.row {recv} {a}")], r, "List<Z>"
+        if rty == "HM":
+            if not e.args:
+                if name == "nrows": return i1, f"(HMat.nrows {recv})", "usize"
+                if name == "ncols": return i1, f"(HMat.ncols {recv})", "usize"
+                if name == "shape": return i1, f"(HMat.shape {recv})", "(usize,usize)"
+                if name == "is_zero": return i1, f"(HMat.is_zero {recv})", "bool"
+                if name in ("into_dense", "into_sparse"): return i1, f"(HMat.{name} {recv})", "HM"
+                if name == "clone": return i1, recv, rty
+            if name in ("submat_rows", "submat_cols") and len(e.args) == 1 and e.args[0].kind == "range":
+                i2, lo, tl = self.tr(e.args[0].lo, env)
+                i3, hi, th = self.tr(e.args[0].hi, env)
+                if tl not in INT64 or th not in INT64: raise Unsupported(f"`.{name}` over {tl}..{th} (line {line})")
+                r = self.fresh()
+                return i1 + i2 + i3 + [("bind", r, f"HMat.{name} {recv} {lo} {hi}")], r, "HM"
+            if name in ("stack", "concat") and len(e.args) == 1:
+                i2, b, tb = self.tr(e.args[0], env)
+                if tb != "HM": raise Unsupported(f"`.{name}` with an argument of type {tb} (line {line})")
+                r = self.fresh()
+                return i1 + i2 + [("bind", r, f"HMat.{name} {recv} {b}")], r, "HM"
+        if rty == "HS" and not e.args:
+            if name == "rank": return i1, f"(HSnf.rank {recv})", "usize"
+            if name == "result": return i1, f"(HSnf.result {recv})", "HM"
+            if name == "factors": return i1, f"(HSnf.factors {recv})", "List<Z>"
+            if name in ("p", "pinv", "q", "qinv"): return i1, f"(HSnf.{name} {recv})", "Option<HM>"
+        if rty == "bool" and name == "then" and len(e.args) == 1 and e.args[0].kind == "closure" and not e.args[0].params:
+            body = self.tr_block(N("block", stmts=[], tail=e.args[0].body), env, ("value", None))
+            ty = self.last_ty
+            if not self.simple(body): raise Unsupported(f"`.then` with a closure that can panic (line {line})")
+            return i1, f"(if {recv} then some {body.final[1]} else none)", f"Option<{ty}>"
+        if rty.startswith("List<") and name == "collect" and not e.args and self.cfg.get("hom"):
+            return i1, recv, rty
         if rty.startswith("List<") and name == "enumerate" and not e.args:
             return i1, f"(Iter.enumerate {recv})", f"List<(usize,{rty[5:-1]})>"
         if rty.startswith("List<"):
@@ -3756,6 +3839,9 @@ def generate(src_text, src_label, target="bitseq"):
     for name in struct_order(sorted(mod.structs)):
         fs = mod.structs[name]
         eo = cfg.get("eops")
+        if cfg.get("hom") and all(re.fullmatch(r"PhantomData<.*>", t) for _, t in fs):
+            mod.notes.append(f"struct {name}: only `PhantomData` fields (its functions are associated functions)")
+            continue
         lines = [f"/-- `struct {name}` -/", f"structure {name}S" + (" (α : Type) (m n : Nat)" if eo else "") + " where"]
         try:
             for f, t in fs:
